@@ -56,7 +56,7 @@ func genC03(seed uint64, tier string) *Plan {
 	if forceBG {
 		p.Cfg.Primary = "multihash"
 	}
-	if (r.Chance(0.3) || forceBG) && p.Cfg.Primary == "multihash" {
+	if (r.Chance(0.4) || forceBG) && p.Cfg.Primary == "multihash" {
 		// background variant: the store's own flusher and collectors run on short
 		// simulated intervals during the forward run, so crash points land in the
 		// middle of background flushes and GC cycles (explicit GC ops are dropped:
@@ -76,20 +76,23 @@ func genC03(seed uint64, tier string) *Plan {
 			// collectors only have work when files roll over
 			p.Cfg.IndexFile = fileSizes[r.Intn(3)]
 		}
-		busy := r.Chance(0.4)
+		busy := r.Chance(0.4) || os.Getenv("VERIF_C03_BUSY") == "1" // env: experiments only
 		if busy {
-			// busy writer: a long run of overwrites and removals of a few keys
+			// busy writer: a long run of overwrites and removals of the keys
 			// with short pauses, small index and primary files, dense collectors:
 			// nearly every periodic flush has work and overlaps a GC cycle that
 			// has older files to reap
 			p.X["busy"] = 1
 			p.X["dense"] = 1
 			p.Cfg.GCMs = int64(1 + r.Intn(4))
-			p.Cfg.SyncMs = 1 + r.Intn(4)
+			p.Cfg.SyncMs = 1 + r.Intn(8)
 			p.Cfg.IndexFile = fileSizes[r.Intn(5)]
 			p.Cfg.PrimaryFile = fileSizes[r.Intn(6)]
-			if len(p.Keys) > 3 {
-				p.Keys = p.Keys[:1+r.Intn(3)]
+			// several buckets per flush: the commit's window between deciding a
+			// bucket's position and writing the buffer then spans the encoding of
+			// the other buckets, including their file roll-overs
+			for len(p.Keys) < 2 {
+				p.Keys = append(p.Keys, GenKeys(r, 1, false)...)
 			}
 			vs := 1000
 			p.Ops = genSeqOps(r, 25+r.Intn(40), len(p.Keys), opMix{put: 60, get: 3, remove: 15, flush: 4, reput: 2}, false, &vs)
@@ -105,7 +108,7 @@ func genC03(seed uint64, tier string) *Plan {
 			}
 		}
 		p.Ops = keep
-		if r.Chance(0.55) {
+		if r.Chance(0.55) && os.Getenv("VERIF_C03_NOLAT") != "1" {
 			p.Sim.Latency = LatencyCfg{Kind: "const", Base: int64(1000 * (1 + r.Intn(300)))}
 		} else {
 			// no latency model: file operations take no simulated time, so the
@@ -136,13 +139,14 @@ func genC03(seed uint64, tier string) *Plan {
 			p.Sim.PreemptEvery = 8 + r.Intn(80)
 			p.Sim.PreemptNs = int64(200+r.Intn(5000)) * 1000
 		}
-		if r.Chance(0.4) {
+		pert := os.Getenv("VERIF_C03_PERT") // experiments only
+		if (r.Chance(0.4) && pert == "") || pert == "jitter" {
 			// all tasks advance at comparable, varying speeds on the simulated
 			// clock; replaces the other two perturbations
 			p.Sim.PreemptEvery, p.Sim.PreemptNs = 0, 0
 			p.Sim.JitterNs = int64(20+r.Intn(400)) * 1000
 			p.X["jitter"] = 1
-		} else if r.Chance(0.6) {
+		} else if (r.Chance(0.6) && pert == "") || pert == "slow" {
 			// a few program points at which every task passing by may be held up
 			// for milliseconds: opens two-statement windows (between a commit's
 			// cut and its write, between a collector's check and its mark) wide
@@ -427,18 +431,40 @@ func runCrash(p *Plan, tape *simrt.Tape, opt RunOpt) *RunOut {
 		}
 		rest := jobs[sample:]
 		jobs = jobs[:sample]
-		if p.x("bg", 0) == 1 {
-			// background variant: the forward schedule is the scarce resource, so
-			// every other crash point of it is booted too, with the light form of
-			// the recovery check
-			nl := 0
-			for _, j := range rest {
-				if j.torn == 0 && nl < 600 {
-					j.light = true
-					jobs = append(jobs, j)
-					nl++
-				}
+		// triage of the crash points that were not sampled: the independent fsck
+		// reads each image (a pure function of the bytes, ~0.1 ms, no store code)
+		// and the contents it reconstructs are compared with what is admissible
+		// at that point. Images that look wrong to it are booted too, with the
+		// light form of the recovery check. The triage only decides which images
+		// the store is asked to recover; a violation is only ever what the
+		// recovered store itself then shows.
+		var sus2, sus1 []job
+		for _, j := range rest {
+			img := j.c.img
+			if j.torn > 0 {
+				img = tornImage(j.c, j.torn)
 			}
+			switch triage(img, j.c.adm, p) {
+			case 2:
+				sus2 = append(sus2, j)
+			case 1:
+				sus1 = append(sus1, j)
+			}
+		}
+		out.Probes["triage-images"] += len(rest)
+		out.Probes["triage-inadmissible"] += len(sus2)
+		out.Probes["triage-fsck-errors"] += len(sus1)
+		limit := 40
+		if p.x("bg", 0) == 1 {
+			limit = 80
+		}
+		for _, j := range append(sus2, sus1...) {
+			if limit == 0 {
+				break
+			}
+			limit--
+			j.light = true
+			jobs = append(jobs, j)
 		}
 	}
 	seenImg := map[uint64]bool{}
@@ -487,6 +513,24 @@ func runCrash(p *Plan, tape *simrt.Tape, opt RunOpt) *RunOut {
 		}
 	}
 	return out
+}
+
+// triage reads a crash image with the independent fsck: 2 = some key's contents
+// as fsck reconstructs them are not admissible, 1 = fsck reports structural
+// errors, 0 = looks fine.
+func triage(img *simos.Image, adm *Adm, p *Plan) int {
+	res := Fsck(fsckInput{Files: img.Files, Primary: p.Cfg.Primary})
+	for i := range p.Keys {
+		d := p.Keys[i].Digest
+		mv, ok := res.Content[string(d)]
+		if !adm.admissible(d, ok && mv.present, mv.val) {
+			return 2
+		}
+	}
+	if len(res.Errs) > 0 {
+		return 1
+	}
+	return 0
 }
 
 // recoverer boots crash images.
@@ -643,12 +687,21 @@ func (d *Driver) recoveredKeyFix() {
 	if r.Err != "" {
 		return
 	}
+	// exact match against the encodings of each plan key (a suffix match is
+	// wrong for short keys: one key's digest can be the tail of another's)
 	for _, it := range r.Items {
-		for _, dg := range d.Model.Digests() {
-			mv := d.Model.m[dg]
-			if string(it.Val) == string(mv.val) && strings.HasSuffix(string(it.Key), dg) {
-				mv.key = it.Key
-				d.Model.m[dg] = mv
+		for i := range d.P.Keys {
+			k := d.P.Keys[i]
+			mv, ok := d.Model.m[string(k.Digest)]
+			if !ok || !mv.present || string(it.Val) != string(mv.val) {
+				continue
+			}
+			for alt := 0; alt < 4; alt++ {
+				if string(it.Key) == string(k.StoreKey(d.Cfg.Primary, alt)) {
+					mv.key = it.Key
+					d.Model.m[string(k.Digest)] = mv
+					break
+				}
 			}
 		}
 	}
